@@ -8,7 +8,7 @@
    specification list; EventList/Refine.v (C01) shows the heap-backed list of
    the implementation answers exactly like it. *)
 From Coq Require Import ZArith List Bool Sorting.Sorted Sorting.Permutation.
-From PV Require Import EventList.Key Sim.Model Sim.Order.
+From PV Require Import EventList.Key Sim.Model Sim.Order Sim.OrderIds.
 Import ListNotations.
 Local Open Scope Z_scope.
 
@@ -39,6 +39,14 @@ Theorem C02_step_takes_minimum : forall p s e r,
   /\ (forall x, In x (pend s) -> key_leb (ev_key e) (ev_key x) = true).
 Proof. exact step_takes_minimum. Qed.
 Print Assumptions C02_step_takes_minimum.
+
+(* "... and then by scheduling order": ids grow in the order of creation, so among
+   events of equal time and priority the smaller key is the one scheduled first *)
+Theorem C02_scheduling_order_is_id_order : forall p s i j a b,
+  reachable p s -> (i < j)%nat ->
+  nth_error (created s) i = Some a -> nth_error (created s) j = Some b -> ev_id a < ev_id b.
+Proof. exact scheduling_order_is_id_order. Qed.
+Print Assumptions C02_scheduling_order_is_id_order.
 
 (* the invariant the order statements rest on holds in every reachable state *)
 Theorem C02_invariant_reachable : forall p s, reachable p s -> Inv s.
